@@ -25,7 +25,7 @@ RES=""
 if [ -n "$(git -C /repo status --porcelain)" ]; then echo "/repo not clean"; exit 2; fi
 git -C /repo apply "$OUT/patch.diff" || { echo "cannot apply to /repo"; exit 3; }
 for C in "$@"; do
-  ./check "$C" --tier quick > /tmp/seed-$ID-$C.log 2>&1; RC=$?
+  VERIF_EVIDENCE_DIR=/tmp/seed-ev VERIF_REPLAY_DIR=/tmp/seed-rp ./check "$C" --tier quick > /tmp/seed-$ID-$C.log 2>&1; RC=$?
   V=$(grep -c '^VIOLATION' /tmp/seed-$ID-$C.log)
   echo "check $C: exit=$RC violations=$V"; grep -A1 '^VIOLATION' /tmp/seed-$ID-$C.log | head -6 | cut -c1-400
   RES="$RES $C:exit=$RC:violations=$V"
